@@ -86,6 +86,7 @@ class Engine:
         self.path = Path()
         self.syms = {}
         self.site_count = {}
+        self.known = []
         prev = Engine.cur
         Engine.cur = self
         try:
@@ -164,6 +165,8 @@ class Engine:
         if _real_isinstance(cond, bool):
             return cond
         cond = z3.simplify(cond)
+        if self.known and not (z3.is_true(cond) or z3.is_false(cond)):
+            cond = z3.simplify(z3.substitute(cond, *self.known))
         if z3.is_true(cond):
             return True
         if z3.is_false(cond):
@@ -248,6 +251,7 @@ class Engine:
             bv = z3.BitVecVal(v, w)
             if taken:
                 self._add(t == bv)
+                self.known.append((t, bv))
                 self.model_valid = False
                 if signed and v >= (1 << (w - 1)):
                     v -= 1 << w
@@ -1024,7 +1028,79 @@ def sym_len(x):
     return _real_len(x)
 
 
+class SymDict(dict):
+    """model of dict lookup with a symbolic int key: forks over the EXISTING keys (key == k ?) instead of
+    realizing every value of the key; missing -> default.  Same observable result as dict.get/__getitem__."""
+
+    def get(self, key, default=None):
+        if _real_isinstance(key, SInt):
+            c = key._conc()
+            if c is not None:
+                return dict.get(self, c, default)
+            # solver-driven enumeration of the FEASIBLE existing keys (cost ~ number of feasible keys, not of keys)
+            E = eng()
+            ikeys = [k for k in self.keys() if _real_isinstance(k, _real_int)]
+            if not ikeys:
+                return default
+            w = max(key.w + (1 if key.signed else 0), max(_bits(abs(k)) + 1 for k in ikeys))
+            kt = key.ext(w)
+            anyk = None
+            while True:
+                m = E.get_model()
+                v = m.eval(kt, model_completion=True)
+                v = v.as_signed_long() if key.signed else v.as_long()
+                if dict.__contains__(self, v):
+                    if E.branch(kt == z3.BitVecVal(v, w)):
+                        return dict.__getitem__(self, v)
+                    continue
+                if anyk is None:
+                    anyk = z3.Or(*[kt == z3.BitVecVal(k, w) for k in ikeys])
+                if not E.branch(anyk):
+                    return default
+        return dict.get(self, key, default)
+
+    def __getitem__(self, key):
+        if _real_isinstance(key, SInt):
+            sentinel = object()
+            r = self.get(key, sentinel)
+            if r is sentinel:
+                raise KeyError(key)
+            return r
+        return dict.__getitem__(self, key)
+
+    def __contains__(self, key):
+        if _real_isinstance(key, SInt):
+            sentinel = object()
+            return self.get(key, sentinel) is not sentinel
+        return dict.__contains__(self, key)
+
+
 _INJECT = {"isinstance": sym_isinstance, "bytes": sym_bytes, "int": sym_int}
+
+
+import codecs as _codecs
+
+
+class sym_codecs:
+    """codecs for modules that only use it to render bytes in log messages"""
+
+    @staticmethod
+    def encode(x, *a, **k):
+        if _real_isinstance(x, SBytes):
+            return b"<symbolic bytes>"
+        return _codecs.encode(x, *a, **k)
+
+    @staticmethod
+    def decode(x, *a, **k):
+        if _real_isinstance(x, SBytes):
+            x = x.realize()
+        return _codecs.decode(x, *a, **k)
+
+    def __getattr__(self, name):
+        return getattr(_codecs, name)
+
+
+_EXTRA_DEFAULT = {"codecs": sym_codecs}
 
 
 class injected:
@@ -1032,7 +1108,8 @@ class injected:
 
     def __init__(self, prefixes=("amoco", "crysp"), extra=None):
         self.prefixes = prefixes
-        self.extra = extra or {}
+        self.extra = dict(_EXTRA_DEFAULT)
+        self.extra.update(extra or {})
         self.saved = []
 
     def __enter__(self):
@@ -1066,4 +1143,6 @@ class injected:
 STUBS = ["isinstance (SInt is an int, SBytes is bytes)",
          "bytes(list-with-symbolic-ints) -> SBytes",
          "int(SInt) -> SInt; int.from_bytes on SBytes",
+         "codecs.encode(SBytes,'hex') (only used to render log messages) returns a placeholder",
+         "dict lookups keyed by a symbolic int on converted tables (SymDict): fork over the existing keys instead of realizing the key",
          "Bits.__init__: the comparison in `if self.ival>0 and (size is None)` is not forked when size is not None (its value cannot matter)"]
